@@ -51,6 +51,20 @@ func (s *SyntaxErrorListener) SyntaxError(recognizer antlr.Recognizer, offending
 	})
 }
 
+// reportUnparsedInput reports the first token the start rule did not consume. The grammar's start rule
+// has no EOF, so the parser stops silently at the first token that cannot begin a definition and the
+// rest of the text would be ignored.
+func reportUnparsedInput(stream *antlr.CommonTokenStream, listener *SyntaxErrorListener) {
+	if t := stream.LT(1); t != nil && t.GetTokenType() != antlr.TokenEOF {
+		listener.Errors = append(listener.Errors, model.SyntaxError{
+			Line:            t.GetLine(),
+			Column:          t.GetColumn(),
+			Msg:             "extraneous input '" + t.GetText() + "' expecting a packet, MetaData or options definition",
+			OffendingSymbol: t,
+		})
+	}
+}
+
 // HasErrors returns true if any syntax errors were collected
 func (s *SyntaxErrorListener) HasErrors() bool {
 	return len(s.Errors) > 0
